@@ -55,6 +55,7 @@ class StreamingDetector(ABC):
                 of columns don't match
             ValueError: raised if X contains more than one observation after coercion
         """
+        prior = (self._input_cols, self._input_col_dim)
         if isinstance(X, DataFrame):
             # The first update with a dataframe will constrain subsequent input.
             if self._input_cols is None:
@@ -83,6 +84,8 @@ class StreamingDetector(ABC):
                     )
 
         if ary.shape[0] != 1:
+            # a rejected input must not establish the expected columns
+            self._input_cols, self._input_col_dim = prior
             raise ValueError(
                 "Input for streaming detectors should contain only one observation."
             )
@@ -233,6 +236,7 @@ class BatchDetector(ABC):
                 of columns don't match
             ValueError: if only one sample has been passed
         """
+        prior = (self._input_cols, self._input_col_dim)
         if isinstance(X, DataFrame):
             # The first update with a dataframe will constrain subsequent input.
             if self._input_cols is None:
@@ -261,6 +265,8 @@ class BatchDetector(ABC):
                         "Column-dimension of new data must match prior data."
                     )
         if ary.shape[0] <= 1:
+            # a rejected input must not establish the expected columns
+            self._input_cols, self._input_col_dim = prior
             raise ValueError(
                 "Input for batch detectors should contain more than one observation."
             )
